@@ -35,6 +35,7 @@ use serde_json::{Value, json};
 
 pub mod alloc;
 pub mod gens;
+pub mod watch;
 
 /// Root of the verification tree (`/verif`; overridable for scratch sandboxes).
 pub fn verif_root() -> String {
@@ -360,6 +361,12 @@ impl Check {
                 Some(hash_str(s.trim()))
             }))
             .unwrap_or(0);
+        watch::start(
+            id,
+            seed,
+            PathBuf::from(format!("{}/replays/{}/found", verif_root(), id)),
+            watch::Policy { cpu: std::time::Duration::from_secs(900), violation: false },
+        );
         Self {
             id: id.to_string(),
             tier,
@@ -380,6 +387,12 @@ impl Check {
             only_stage,
             max_shrink_iters: 3000,
         }
+    }
+
+    /// CPU budget of a single case (see `watch`). `violation`: the property itself promises
+    /// termination, so exceeding the budget is a violation; otherwise it is inconclusive (exit 2).
+    pub fn hang_budget(&mut self, cpu_secs: u64, violation: bool) {
+        watch::set_policy(watch::Policy { cpu: std::time::Duration::from_secs(cpu_secs), violation });
     }
 
     pub fn rule(&mut self, r: &str) {
@@ -524,6 +537,7 @@ impl Check {
             }
             self.replay_ran = true;
             let mut ctx = CaseCtx::default();
+            let _w = watch::enter(name, &case);
             let r = guarded(|| oracle(&case, &mut ctx));
             let sigs: Vec<String> = self.known.iter().map(|k| k.signature.clone()).collect();
             let r = promote_unlisted(r, &ctx, &sigs);
@@ -557,7 +571,7 @@ impl Check {
                     std::thread::Builder::new()
                         .stack_size(64 << 20)
                         .spawn_scoped(scope, move || {
-                            run_shard(n, seed, strategy(), oracle, known_sigs, shrink)
+                            run_shard(name, n, seed, strategy(), oracle, known_sigs, shrink)
                         })
                         .unwrap(),
                 );
@@ -610,7 +624,7 @@ impl Check {
 
     fn run_committed_replays<C, F>(&mut self, name: &str, oracle: &F)
     where
-        C: Debug + Clone + Serialize + DeserializeOwned,
+        C: Debug + Clone + Serialize + DeserializeOwned + Send + 'static,
         F: Fn(&C, &mut CaseCtx) -> Outcome,
     {
         let dir = self.replay_dir();
@@ -631,7 +645,9 @@ impl Check {
                 continue;
             }
             let mut ctx = CaseCtx::default();
+            let _w = watch::enter(name, &case);
             let r = guarded(|| oracle(&case, &mut ctx));
+            drop(_w);
             let sigs: Vec<String> = self.known.iter().map(|k| k.signature.clone()).collect();
             let r = promote_unlisted(r, &ctx, &sigs);
             self.absorb_known(&ctx.known);
@@ -668,6 +684,7 @@ impl Check {
                 only: Some(serde_json::to_string(&case).unwrap()),
                 stop: false,
                 max_failures: 1,
+                stage: name.to_string(),
             };
             body(&mut e);
             self.replay_ran = true;
@@ -691,6 +708,7 @@ impl Check {
             only: None,
             stop: false,
             max_failures: 3,
+            stage: name.to_string(),
         };
         body(&mut e);
         let st = self.stages.get_mut(name).unwrap();
@@ -972,6 +990,7 @@ struct ShardResult<C> {
 }
 
 fn run_shard<C, S, F>(
+    stage: &str,
     cases: u64,
     seed: u64,
     strategy: S,
@@ -980,7 +999,7 @@ fn run_shard<C, S, F>(
     max_shrink_iters: u32,
 ) -> ShardResult<C>
 where
-    C: Debug + Clone + Serialize,
+    C: Debug + Clone + Serialize + Send + 'static,
     S: Strategy<Value = C>,
     F: Fn(&C, &mut CaseCtx) -> Outcome,
 {
@@ -1018,7 +1037,9 @@ where
     let result = runner.run(&strategy, |case| {
         let shrinking = target_sig.borrow().is_some();
         let mut ctx = CaseCtx::default();
+        let _w = watch::enter(stage, &case);
         let r = guarded(|| oracle(&case, &mut ctx));
+        drop(_w);
         let r = promote_unlisted(r, &ctx, known_sigs);
         if !shrinking {
             let mut st = state.borrow_mut();
@@ -1119,9 +1140,10 @@ pub struct Enumerator<C> {
     only: Option<String>,
     stop: bool,
     max_failures: usize,
+    stage: String,
 }
 
-impl<C: Debug + Clone + Serialize> Enumerator<C> {
+impl<C: Debug + Clone + Serialize + Send + 'static> Enumerator<C> {
     /// true once enough distinct failures were collected; enumerators should stop.
     pub fn stopped(&self) -> bool {
         self.stop
@@ -1137,7 +1159,9 @@ impl<C: Debug + Clone + Serialize> Enumerator<C> {
             }
         }
         let mut ctx = CaseCtx::default();
+        let _w = watch::enter(&self.stage, case);
         let r = guarded(|| oracle(case, &mut ctx));
+        drop(_w);
         let r = promote_unlisted(r, &ctx, &self.known_sigs);
         self.stats.evaluations += 1;
         for c in &ctx.classes {
